@@ -11,6 +11,7 @@ import (
 	"flag"
 	"fmt"
 	"sort"
+	"strings"
 
 	"github.com/scionproto/scion/control/beacon"
 	"github.com/scionproto/scion/pkg/addr"
@@ -60,47 +61,51 @@ func one(w *vt.Writer, cands [][]int, k int) {
 
 func main() {
 	out := flag.String("out", "beaconsel.ndjson", "output")
-	maxN := flag.Int("n", 3, "complete enumeration: up to this many candidates")
-	maxLen := flag.Int("len", 2, "complete enumeration: up to this many links per candidate")
-	nlinks := flag.Int("links", 3, "complete enumeration: link alphabet size")
+	complete := flag.String("complete", "3:2:3,4:2:2", "complete enumerations n:len:links (candidates, links per candidate, link values)")
 	nrand := flag.Int("rand", 1500, "seeded larger cases")
 	flag.Parse()
 	w := vt.NewWriter(*out)
 
-	// all beacons over the alphabet, ordered by length
-	var shapes [][]int
-	var gen func(prefix []int, n int)
-	gen = func(prefix []int, n int) {
-		if n == 0 {
-			shapes = append(shapes, append([]int{}, prefix...))
-			return
+	for _, spec := range strings.Split(*complete, ",") {
+		var maxN, maxLen, nlinks int
+		if _, err := fmt.Sscanf(spec, "%d:%d:%d", &maxN, &maxLen, &nlinks); err != nil {
+			vt.Fatal("bad -complete %q", spec)
 		}
-		for l := 0; l < *nlinks; l++ {
-			gen(append(prefix, l), n-1)
-		}
-	}
-	for n := 1; n <= *maxLen; n++ {
-		gen(nil, n)
-	}
-	// all lists of up to maxN beacons in non-decreasing length order, every k in 1..n+1
-	var lists func(prefix [][]int)
-	lists = func(prefix [][]int) {
-		if len(prefix) > 0 {
-			for k := 1; k <= len(prefix)+1; k++ {
-				one(w, prefix, k)
+		// all beacons over the alphabet, ordered by length
+		var shapes [][]int
+		var gen func(prefix []int, n int)
+		gen = func(prefix []int, n int) {
+			if n == 0 {
+				shapes = append(shapes, append([]int{}, prefix...))
+				return
+			}
+			for l := 0; l < nlinks; l++ {
+				gen(append(prefix, l), n-1)
 			}
 		}
-		if len(prefix) == *maxN {
-			return
+		for n := 1; n <= maxLen; n++ {
+			gen(nil, n)
 		}
-		for _, s := range shapes {
-			if len(prefix) > 0 && len(prefix[len(prefix)-1]) > len(s) {
-				continue
+		// all lists of up to maxN beacons in non-decreasing length order, every k in 1..n+1
+		var lists func(prefix [][]int)
+		lists = func(prefix [][]int) {
+			if len(prefix) > 0 {
+				for k := 1; k <= len(prefix)+1; k++ {
+					one(w, prefix, k)
+				}
 			}
-			lists(append(prefix, s))
+			if len(prefix) == maxN {
+				return
+			}
+			for _, s := range shapes {
+				if len(prefix) > 0 && len(prefix[len(prefix)-1]) > len(s) {
+					continue
+				}
+				lists(append(prefix, s))
+			}
 		}
+		lists(nil)
 	}
-	lists(nil)
 	ncomplete := w.N
 
 	rng := vt.Rand(26)
